@@ -145,39 +145,123 @@ func Run(env *core.Env, p *load.Program, prop string, sel json.RawMessage) (*cor
 
 // planned is one case to check with the relations that apply to it.
 type planned struct {
-	src  *Src
-	job  Job
-	rels []string
-	dir  int // id of the companion directive-form job (or -1)
+	src   *Src
+	job   Job
+	rels  []string
+	dirID int // id of the companion directive-form job (or -1)
+	evID  int // id of the companion ReportEvent job (or -1)
+	base  int // id of the job with the empty cost map (same mask), or -1
 }
 
 type plan struct {
 	sel         *Selection
 	ts          TierSel
 	jobs        []Job
+	jobIdx      map[string]int
 	cases       []*planned
+	caseIdx     map[string]*planned
 	masks       []int
 	costs       []string
 	assumptions []string
 }
 
-func newPlan(s *Selection, ts TierSel, srcs []*Src) *plan {
-	pl := &plan{sel: s, ts: ts}
-	addJob := func(j Job) int {
-		j.ID = len(pl.jobs)
-		pl.jobs = append(pl.jobs, j)
-		return j.ID
+func jobKey(j Job) string {
+	return fmt.Sprintf("%s|%d|%v|%v|%s|%v|%v|%v|%s", j.Src, j.Mask, j.Ev, j.Dir, j.Costs, j.Redump, j.FPOnly, j.Run, j.Gen)
+}
+
+func (pl *plan) addJob(j Job) int {
+	k := jobKey(j)
+	if id, ok := pl.jobIdx[k]; ok {
+		return id
 	}
+	j.ID = len(pl.jobs)
+	pl.jobs = append(pl.jobs, j)
+	pl.jobIdx[k] = j.ID
+	return j.ID
+}
+
+// want registers relation rel for (src, job).
+func (pl *plan) want(src *Src, j Job, rels ...string) *planned {
+	id := pl.addJob(j)
+	k := jobKey(j)
+	pc := pl.caseIdx[k]
+	if pc == nil {
+		pc = &planned{src: src, job: pl.jobs[id], dirID: -1, evID: -1, base: -1}
+		pl.caseIdx[k] = pc
+		pl.cases = append(pl.cases, pc)
+	}
+	for _, r := range rels {
+		dup := false
+		for _, x := range pc.rels {
+			if x == r {
+				dup = true
+			}
+		}
+		if !dup {
+			pc.rels = append(pc.rels, r)
+		}
+	}
+	return pc
+}
+
+var allMasks = []int{0, 1, 2, 3, 4, 5, 6, 7, 8, 9, 10, 11, 12, 13, 14, 15}
+
+// CostPool: names of the cost maps of the driver (harness: verifCosts).
+var CostPool = []string{"", "name", "neg", "zero", "huge", "nan"}
+
+var c02Rels = []string{"U-if-value", "U-if-AllOK", "LR-if-value", "directive=options"}
+
+func (s *Selection) hasAny(rels []string) []string {
+	var out []string
+	for _, r := range rels {
+		if s.has(r) {
+			out = append(out, r)
+		}
+	}
+	return out
+}
+
+func newPlan(s *Selection, ts TierSel, srcs []*Src) *plan {
+	pl := &plan{sel: s, ts: ts, jobIdx: map[string]int{}, caseIdx: map[string]*planned{}}
+	masks := ts.Masks
+	if len(masks) == 0 {
+		masks = allMasks
+	}
+	costs := ts.Costs
+	if len(costs) == 0 {
+		costs = CostPool
+	}
+	pl.masks, pl.costs = masks, costs
 	for _, src := range srcs {
 		undef := UsesUndef(src)
 		text := src.String()
 		if s.has("eval=LR") {
-			j := Job{Src: text, Mask: 0, Undef: undef}
-			id := addJob(j)
-			pl.cases = append(pl.cases, &planned{src: src, job: pl.jobs[id], rels: []string{"eval=LR"}, dir: -1})
+			pl.want(src, Job{Src: text, Mask: 0, Undef: undef}, "eval=LR")
+		}
+		if rels := s.hasAny(c02Rels); len(rels) > 0 {
+			for _, m := range masks {
+				cs := []string{""}
+				if m&8 != 0 {
+					cs = costs
+				}
+				baseID := -1
+				for _, c := range cs {
+					j := Job{Src: text, Mask: m, Undef: undef, Costs: c}
+					pc := pl.want(src, j, rels...)
+					if c == "" {
+						baseID = pc.job.ID
+					} else {
+						pc.base = baseID
+					}
+					if s.has("directive=options") {
+						d := j
+						d.Dir, d.FPOnly = true, true
+						pc.dirID = pl.addJob(d)
+					}
+				}
+			}
 		}
 	}
-	pl.masks = []int{0}
 	return pl
 }
 
@@ -195,14 +279,28 @@ func (pl *plan) generate(cx *Checker, progs map[int]*XProg) []*core.Obl {
 			var obls []*core.Obl
 			co := cx.CompileObl(c)
 			obls = append(obls, co)
-			if co.Status == core.Discharged {
-				obls = append(obls, cx.WFObl(c))
-				for _, rel := range pc.rels {
-					switch rel {
-					case "eval=LR":
-						obls = append(obls, cx.EvalLR(c)...)
+			if co.Status != core.Discharged {
+				out[i] = obls
+				return
+			}
+			obls = append(obls, cx.WFObl(c))
+			// a cost map that yields the very program of the empty map adds nothing symbolic
+			sameAsBase := pc.base >= 0 && progs[pc.base].OK() && progs[pc.base].FP == c.Prog.FP
+			var c02 []string
+			for _, rel := range pc.rels {
+				switch rel {
+				case "eval=LR":
+					obls = append(obls, cx.EvalLR(c)...)
+				case "directive=options":
+					obls = append(obls, cx.DirectiveObl(c, progs[pc.dirID]))
+				case "U-if-value", "U-if-AllOK", "LR-if-value":
+					if !sameAsBase {
+						c02 = append(c02, rel)
 					}
 				}
+			}
+			if len(c02) > 0 {
+				obls = append(obls, cx.C02(c, c02)...)
 			}
 			out[i] = obls
 		}(i, pc)
